@@ -33,6 +33,8 @@ def finding_matches(f, prop, desc):
 
 
 def run_check(prop, tier, seed, replay=None):
+    # a harness process that never answers (deadlock / endless loop in the code under test) is killed and reported
+    os.environ.setdefault("VERIF_HANG_TIMEOUT", "600" if tier == "quick" else "3000")
     t0 = time.time()
     mod = load(prop)
     known = vlib.load_known()
@@ -74,7 +76,7 @@ def run_check(prop, tier, seed, replay=None):
         violations.append(("check machinery error", {"kind": "error", "error": traceback.format_exc()}, False))
     if ctx:
         for k in ("evaluations", "distinct_nontrivial", "rule", "samples", "traces_validated_against_impl",
-                  "distribution", "exhaustive", "exhaustive_part", "unmodelled", "direct_property_cases", "modelled_handlers", "handlers", "corpus_scripts", "harness_build_s", "skipped_by_model", "fetch_slice", "instruction_slice", "generator_clause", "golden_agreement", "helper_cases", "family_instruction_cases"):
+                  "distribution", "exhaustive", "exhaustive_part", "unmodelled", "direct_property_cases", "modelled_handlers", "handlers", "corpus_scripts", "harness_build_s", "skipped_by_model", "fetch_slice", "instruction_slice", "generator_clause", "golden_agreement", "helper_cases", "family_instruction_cases", "facade_slice", "sanitizer"):
             if k in ctx:
                 cov[k] = ctx[k]
         for v in ctx.get("violations", []):
